@@ -1373,6 +1373,8 @@ def vg2(ctx):
                 if not dup:
                     n += 1
                 if scope is not None and (f.file or '') not in scope:
+                    ctx.ok('%s/%s@%s' % (short(f), (a.text(3) or '')[:40], g.line),
+                           '%s: guarded throw (judged under the properties anchored in %s)' % (inst(f), f.file), g.loc)
                     continue
                 ctx.check('%s/%s@%s' % (short(f), (a.text(3) or '')[:40], g.line), tn in good and tn not in bad_,
                           '%s: `%s` leads to the throw on its failing outcome' % (inst(f), a.text(4)[:70]),
